@@ -87,11 +87,14 @@ func (l *List) Get(key []byte) (kv.Entry, error) {
 	return nil, kv.ErrNotFound
 }
 
+// ScanPrefix merges the matching entries of all memtables keeping the newest
+// version of each key. Delete markers are part of the result: the caller merges
+// it with older data and must drop them afterwards.
 func (l *List) ScanPrefix(prefix []byte, errOut *error) iter.Seq[kv.Entry] {
 	tables := l.tablesSnap()
 	iters := make([]iter.Seq[kv.Entry], len(tables))
 	for i, table := range tables {
-		iters[i] = table.ScanPrefix(prefix)
+		iters[i] = table.ScanPrefixWithTombstones(prefix)
 	}
 	return kv.MergeEntries(iters)
 }
